@@ -28,7 +28,10 @@ RULE = ('One run = one acyclic workbook, one load schedule and a history of '
         'books | loaded books | simulated disk), deepcopy, finish again} '
         'followed by an observed calculate(inputs, outputs) with 0-3 '
         'overridden constant cells / formula cells / array-formula cells / '
-        'defined names / multi-cell ranges and values of every kind. '
+        'defined names / multi-cell ranges / whole rows and values of every '
+        'kind (numbers, text, logicals, errors, blanks, typed numpy arrays). '
+        '15 % of the worlds are circular (finish(circular=True)) and the '
+        'observed overrides put a constant on every cycle. '
         'Non-trivial: the history has >= 1 earlier operation with a different '
         'input set AND the observed overrides change >= 1 formula cell that '
         'is not itself overridden; distinct by (world, schedule, history) '
